@@ -18,6 +18,7 @@ const Preamble = `(declare-fun slen (Int) Int)
 (declare-fun sl_off (Int) Int)
 (declare-fun sl_len (Int) Int)
 (declare-fun sl_cap (Int) Int)
+(declare-fun idx (Int Int) Int)
 (declare-fun itag (Int) Int)
 (declare-fun ipl (Int) Int)
 (declare-fun ibox (Int Int) Int)
@@ -34,6 +35,7 @@ const Preamble = `(declare-fun slen (Int) Int)
 (assert (forall ((r (Array Int Bool))) (! (>= (maplen r) 0) :pattern ((maplen r)))))
 (assert (forall ((x Int)) (! (>= (slen x) 0) :pattern ((slen x)))))
 (assert (forall ((x Int)) (! (=> (= (slen x) 0) (= x 0)) :pattern ((slen x)))))
+(assert (forall ((a Int) (b Int)) (! (= (idx a b) (+ a b)) :pattern ((idx a b)))))
 (assert (= (sl_len 0) 0))
 (assert (= (sl_cap 0) 0))
 (assert (= (sl_off 0) 0))
@@ -83,6 +85,15 @@ func (vc *VC) Generate() (err error) {
 		}
 	}
 	vc.axioms()
+	if vc.fc != nil {
+		for _, in := range vc.fc.Inits {
+			gd := vc.C.Ghosts[in.Ghost.Name]
+			if gd == nil || !gd.Scratch {
+				vc.fail("%s:%d: init is only allowed on scratch ghost variables", in.File, in.Line)
+			}
+			vc.ghostSet(in, vc.envAt(vc.st, vc.entry), "")
+		}
+	}
 
 	order := vc.topoOrder()
 	for _, b := range order {
@@ -375,6 +386,9 @@ func (vc *VC) callMods(ins ssa.CallInstruction, ms *modSet) {
 	fc := vc.C.Funcs[name]
 	if fc == nil && fn != nil && fn.Origin() != nil {
 		fc = vc.C.Funcs[CanonName(fn.Origin())]
+	}
+	if fc != nil && fc.Blocks {
+		ms.ghost = true
 	}
 	ghostOf := func(fc *FuncContract) {
 		gn := map[string]bool{}
